@@ -3,8 +3,8 @@
     script: entry (k, e) = the next Read / recvmsg hands over at most k bytes (e: with
     io.EOF attached if they are the last bytes); after the script everything asked
     for is handed over.  [script_ok PGeneric sc] = every k > 0; [script_ok PVec sc] = True. *)
-From Coq Require Import NArith List Bool.
-From P9V Require Import gen.ConstGen Frame.Model Frame.ListN Frame.FrameProofs Frame.Reader Frame.ReaderProofs.
+From Coq Require Import NArith List Bool String.
+From P9V Require Import gen.ConstGen Frame.Model Frame.ListN Frame.FrameProofs Frame.Reader Frame.ReaderProofs Frame.Imp gen.VecGen Frame.VecTie.
 Import ListNotations.
 Open Scope N_scope.
 
@@ -68,6 +68,29 @@ Theorem C17_generic_safe : forall lookup dec closed msize sc s,
   (exists c r sc', recv_rd lookup dec PGeneric closed msize sc s = RR (ConnErr c) r sc').
 Proof. exact recv_rd_generic_safe. Qed.
 Print Assumptions C17_generic_safe.
+
+(** the iovec-advance step of the recvmsg path as the SOURCE has it: the statements go2coq VecGen reads off
+    vecnet_linux.go readFromBuffersLinux (gen/VecGen.v), run by the interpreter of Frame/Imp.v (Go index / slice
+    panics included), leave the buffers [consume_iov] -- the function the theorems above are about -- leaves.
+    BOUNDED: exhaustive over every list of <= 3 buffers of lengths 0..4 and every cur <= their sum; a semantic
+    comparison (locals may be renamed, the loop rewritten equivalently), not a theorem for all buffer lists. *)
+Theorem C17_vec_advance_agrees_bounded : forall views cur,
+  In views universe -> cur <= sumN views ->
+  match run_advance vec_advance vec_cur_name cur views, consume_iov cur views with
+  | Some a, Some b => a = b
+  | None, None => True
+  | _, _ => False
+  end.
+Proof. exact vec_advance_agrees. Qed.
+Print Assumptions C17_vec_advance_agrees_bounded.
+
+(** the comparison is not vacuous: the two seeded rewrites of that loop (C17-m3: buffer compared with the recvmsg
+    total; C02-m4: partly filled buffer advanced by the total) fail it, an equivalent countdown rewrite passes *)
+Theorem C17_vec_advance_rewrites :
+  advance_tie m3_advance "cur"%string = false /\ advance_tie m4_advance "cur"%string = false /\
+  advance_tie countdown_advance "cur"%string = true.
+Proof. exact (conj (proj1 seeded_rewrites_refuted) (conj (proj1 (proj2 seeded_rewrites_refuted)) equivalent_rewrite_passes)). Qed.
+Print Assumptions C17_vec_advance_rewrites.
 
 (** hypotheses are satisfiable; and a concrete run: header cut 3+4, then single bytes *)
 Example C17_script_example : script_ok PGeneric [(3, false); (4, false); (1, true); (1, true); (1, false); (1, true)].
